@@ -1267,9 +1267,15 @@ static std::string b_state() {
     switch (n->type()) {
       case NodeType::kSection: s += "S" + std::to_string(n->as<SectionNode>()->section_id()); break;
       case NodeType::kInst: {
-        InstId id = n->as<InstNode>()->inst_id();
-        int k = id == x86::Inst::kIdNop ? 0 : id == x86::Inst::kIdMov ? 1 : id == x86::Inst::kIdRet ? 2 : 3;
-        s += "I" + std::to_string(k) + (n->has_inline_comment() ? "c" : "");
+        InstNode* in = n->as<InstNode>();
+        InstId id = in->inst_id();
+        int k = id == x86::Inst::kIdNop ? 0 : id == x86::Inst::kIdMov ? 1 : id == x86::Inst::kIdRet ? 2 : id == x86::Inst::kIdVaddps ? 4 :
+                id == x86::Inst::kIdVsubps ? 5 : id == x86::Inst::kIdAdd ? (in->op(0).is_mem() ? 7 : 3) : 9;
+        s += "I" + std::to_string(k);
+        if (in->has_extra_reg()) s += "x" + std::to_string(in->extra_reg().type() == RegType::kMask ? in->extra_reg().id() : in->extra_reg().id() + 16);
+        uint32_t ob = (Support::test(in->options(), InstOptions::kX86_Rep) ? 1u : 0u) | (Support::test(in->options(), InstOptions::kX86_Lock) ? 2u : 0u);
+        if (ob) s += "o" + std::to_string(ob);
+        if (n->has_inline_comment()) s += "c";
         break;
       }
       case NodeType::kLabel: s += "L" + std::to_string(n->as<LabelNode>()->label_id()); break;
@@ -1282,6 +1288,12 @@ static std::string b_state() {
     s += ",";
   }
   s += " LC=" + std::to_string(c.code.label_count());
+  {
+    // pending one-shot state of the emitter
+    uint32_t pe = c.b.has_extra_reg() ? (c.b.extra_reg().type() == RegType::kMask ? c.b.extra_reg().id() : c.b.extra_reg().id() + 16) : 0;
+    uint32_t po = (Support::test(c.b.inst_options(), InstOptions::kX86_Rep) ? 1u : 0u) | (Support::test(c.b.inst_options(), InstOptions::kX86_Lock) ? 2u : 0u);
+    s += " P=" + std::to_string(pe) + "," + std::to_string(po) + "," + (c.b.inline_comment() ? "1" : "0");
+  }
   s += " | C=" + std::to_string(c.code._label_entries.capacity()) + "," + std::to_string(c.b._label_nodes.capacity()) + " LN=";
   for (LabelNode* ln : c.b._label_nodes) s += ln ? "1" : "0";
   return s;
@@ -1309,14 +1321,40 @@ static std::string b_step(const std::vector<std::string>& w) {
   g_op_mask = mask; g_op_cnt = 0; g_op_heap = false;
   Error e = Error::kOk;
   if (op == "emit") {
-    if (!U(3, u0) || !U(4, u1)) return "bad-op";
-    if (u1) c.b.set_inline_comment("a comment");
+    if (!U(3, u0)) return "bad-op";
     g_op_armed = true;
     if (u0 == 0) e = c.b.nop();
     else if (u0 == 1) e = c.b.mov(x86::eax, 0x11223344);
     else if (u0 == 2) e = c.b.ret();
+    else if (u0 == 4) e = c.b.vaddps(x86::zmm0, x86::zmm1, x86::zmm2);
+    else if (u0 == 5) e = c.b.vsubps(x86::zmm3, x86::zmm4, x86::zmm5);
+    else if (u0 == 7) e = c.b.add(x86::dword_ptr(x86::rax), x86::ecx);
     else e = c.b.add(x86::rax, x86::rcx);
     g_op_armed = false;
+  }
+  else if (op == "setextra") {
+    // the one-shot extra register: `k(kN)` write mask (1..7) or a GP register (16 + id: `rep(ecx)` count register)
+    if (!U(3, u0)) return "bad-op";
+    if (u0 >= 16) c.b.set_extra_reg(x86::gpd(uint32_t(u0 - 16))); else c.b.set_extra_reg(x86::k(uint32_t(u0)));
+  }
+  else if (op == "setopts") {
+    if (!U(3, u0)) return "bad-op";
+    if (u0 & 1) c.b.add_inst_options(InstOptions::kX86_Rep);
+    if (u0 & 2) c.b.add_inst_options(InstOptions::kX86_Lock);
+  }
+  else if (op == "setcmt") {
+    c.b.set_inline_comment("a comment");
+  }
+  else if (op == "ser") {
+    // serialize the node list with a fresh Assembler attached to the same CodeHolder; answers the bytes of .text
+    x86::Assembler a;
+    if (c.code.attach(&a) != Error::kOk) return "ser attach-failed";
+    e = c.b.serialize_to(&a);
+    CodeBuffer& buf = c.code.text_section()->buffer();
+    std::string r = "ser " + ename(e) + " " + (buf.size() ? vh::bytes_to_hex(buf.data(), buf.size()) : std::string("-"));
+    c.code.detach(&a);
+    buf._size = 0;
+    return r;
   }
   else if (op == "newlabel") {
     g_op_armed = true;
@@ -1392,8 +1430,12 @@ static std::string c_state() {
       case NodeType::kSentinel: s += "Z"; break;
       case NodeType::kInvoke: s += "V" + std::to_string(n->as<InvokeNode>()->arg_count()); break;
       case NodeType::kInst: {
-        InstId id = n->as<InstNode>()->inst_id();
-        s += "I" + std::to_string(id == x86::Inst::kIdNop ? 0 : id == x86::Inst::kIdMov ? 1 : 3);
+        InstNode* in = n->as<InstNode>();
+        InstId id = in->inst_id();
+        s += "I" + std::to_string(id == x86::Inst::kIdNop ? 0 : id == x86::Inst::kIdMov ? 1 : id == x86::Inst::kIdVaddps ? 4 : id == x86::Inst::kIdVsubps ? 5 : 3);
+        if (in->has_extra_reg()) s += "x" + std::to_string(in->extra_reg().type() == RegType::kMask ? in->extra_reg().id() : in->extra_reg().id() + 16);
+        uint32_t ob = (Support::test(in->options(), InstOptions::kX86_Rep) ? 1u : 0u) | (Support::test(in->options(), InstOptions::kX86_Lock) ? 2u : 0u);
+        if (ob) s += "o" + std::to_string(ob);
         break;
       }
       default: s += "?"; break;
@@ -1402,6 +1444,11 @@ static std::string c_state() {
   }
   s += " CUR=" + std::to_string(cur) + " LC=" + std::to_string(c.code.label_count()) + " R=";
   for (VirtReg* vr : c.cc.virt_regs()) s += vr->name_size() ? "1" : "0";
+  {
+    uint32_t pe = c.cc.has_extra_reg() ? (c.cc.extra_reg().type() == RegType::kMask ? c.cc.extra_reg().id() : c.cc.extra_reg().id() + 16) : 0;
+    uint32_t po = (Support::test(c.cc.inst_options(), InstOptions::kX86_Rep) ? 1u : 0u) | (Support::test(c.cc.inst_options(), InstOptions::kX86_Lock) ? 2u : 0u);
+    s += " P=" + std::to_string(pe) + "," + std::to_string(po);
+  }
   s += " | C=" + std::to_string(c.code._label_entries.capacity()) + "," + std::to_string(c.cc._label_nodes.size()) + "," +
        std::to_string(c.cc._label_nodes.capacity()) + "," + std::to_string(c.cc._virt_regs.capacity());
   return s;
@@ -1457,8 +1504,19 @@ static std::string c_step(const std::vector<std::string>& w) {
     g_op_armed = true;
     if (u0 == 0) e = c.cc.nop();
     else if (u0 == 1) e = c.cc.mov(x86::eax, 0x11223344);
+    else if (u0 == 4) e = c.cc.vaddps(x86::zmm0, x86::zmm1, x86::zmm2);
+    else if (u0 == 5) e = c.cc.vsubps(x86::zmm3, x86::zmm4, x86::zmm5);
     else e = c.cc.add(x86::rax, x86::rcx);
     g_op_armed = false;
+  }
+  else if (op == "setextra") {
+    if (!U(3, u0)) return "bad-op";
+    if (u0 >= 16) c.cc.set_extra_reg(x86::gpd(uint32_t(u0 - 16))); else c.cc.set_extra_reg(x86::k(uint32_t(u0)));
+  }
+  else if (op == "setopts") {
+    if (!U(3, u0)) return "bad-op";
+    if (u0 & 1) c.cc.add_inst_options(InstOptions::kX86_Rep);
+    if (u0 & 2) c.cc.add_inst_options(InstOptions::kX86_Lock);
   }
   else if (op == "endfunc") {
     e = c.cc.end_func();
